@@ -174,13 +174,14 @@ impl<'a> Gen<'a> {
                     let tyb = if ty == Ty::F64 && self.r.chance(1, 4) { Ty::Int } else { ty };
                     let (b, bb) = self.scalar(sc, tyb, d);
                     if let (Some(x), Some(y)) = (ba, bb) {
-                        let op = *self.r.pick(&[BinOp::Add, BinOp::Sub, BinOp::Mul]);
+                        // doubles: no multiplication and no negation — 0.0 * (-x) and -(0.0) are -0.0, whose comparison is engine-defined
+                        let op = if ty == Ty::F64 { *self.r.pick(&[BinOp::Add, BinOp::Sub]) } else { *self.r.pick(&[BinOp::Add, BinOp::Sub, BinOp::Mul]) };
                         let bits = if op == BinOp::Mul { x + y } else { x.max(y) + 1 };
                         if bits <= 40 { self.tag("arith"); return (Expr::bin(op, a, b), Some(bits)); }
                     }
                     return (a, ba);
                 }
-                if k == 5 && self.on("arith") { let (a, ba) = self.scalar(sc, ty, d); if ba.is_some() { self.tag("neg"); return (Expr::Un(UnOp::Neg, Box::new(a)), ba); } return (a, ba); }
+                if k == 5 && self.on("arith") && ty == Ty::Int { let (a, ba) = self.scalar(sc, ty, d); if ba.is_some() { self.tag("neg"); return (Expr::Un(UnOp::Neg, Box::new(a)), ba); } return (a, ba); }
                 if k == 6 && self.on("case") { return self.case_expr(sc, ty, d); }
                 if k == 7 && self.on("case") { return self.coalesce_expr(sc, ty, d); }
                 if k == 8 && self.on("case") { let w = std::mem::replace(&mut self.widen, true); let (a, ba) = self.scalar(sc, ty, d); let (b, _) = self.scalar(sc, ty, 0); self.widen = w; self.tag("nullif"); return (Expr::Nullif(Box::new(a), Box::new(b)), ba); }
